@@ -75,6 +75,10 @@ func fileContent(f J) []byte {
 		c := L(f["content"])
 		return bytes.Repeat([]byte{byte(I(c[0]))}, 1<<uint(I(c[1])))
 	}
+	if f["kind"].(string) == "fillk" { // content [b, k]: the byte b repeated k*512 times (tar block granularity)
+		c := L(f["content"])
+		return bytes.Repeat([]byte{byte(I(c[0]))}, 512*I(c[1]))
+	}
 	return []byte(S(f["content"]))
 }
 
